@@ -10,24 +10,27 @@
     [S (length expr)] and IfFeatureProofs.v shows that this never runs out, for every text.
     The evaluator as it was at the pinned commit (stack machine with the 'greedy' flag) is kept as
     [old_eval_impl] for the refutation example. *)
-From Coq Require Import List Bool Arith Strings.Byte.
+From Coq Require Import List Bool Arith NArith Strings.Byte.
 Import ListNotations.
 
 Inductive result := ROk (b : bool) | RErr | ROutOfFuel.
 
+(** byte equality through the byte's number (evaluates faster than Byte.eqb) *)
+Definition beq (a b : byte) : bool := N.eqb (Byte.to_N a) (Byte.to_N b).
+
 Fixpoint bytes_eqb (a b : list byte) : bool :=
   match a, b with
   | [], [] => true
-  | x :: a', y :: b' => Byte.eqb x y && bytes_eqb a' b'
+  | x :: a', y :: b' => beq x y && bytes_eqb a' b'
   | _, _ => false
   end.
 
 (** ' ', '\t', '\n', '\r' *)
 Definition is_ws (b : byte) : bool :=
-  Byte.eqb b x20 || Byte.eqb b x09 || Byte.eqb b x0a || Byte.eqb b x0d.
+  match b with x20 | x09 | x0a | x0d => true | _ => false end.
 (** the pinned commit: ' ' only *)
-Definition is_ws_old (b : byte) : bool := Byte.eqb b x20.
-Definition is_paren (b : byte) : bool := Byte.eqb b x28 || Byte.eqb b x29.
+Definition is_ws_old (b : byte) : bool := match b with x20 => true | _ => false end.
+Definition is_paren (b : byte) : bool := match b with x28 | x29 => true | _ => false end.
 
 Definition kw_not : list byte := [x6e; x6f; x74].
 Definition kw_and : list byte := [x61; x6e; x64].
@@ -351,8 +354,8 @@ Fixpoint lex_go (s : list byte) (cur : list byte) (acc : list tok) : list tok :=
   | [] => rev (flush cur acc)
   | b :: tl =>
       if is_ws b then lex_go tl [] (flush cur acc)
-      else if Byte.eqb b x28 then lex_go tl [] (TLp :: flush cur acc)
-      else if Byte.eqb b x29 then lex_go tl [] (TRp :: flush cur acc)
+      else if beq b x28 then lex_go tl [] (TLp :: flush cur acc)
+      else if beq b x29 then lex_go tl [] (TRp :: flush cur acc)
       else lex_go tl (b :: cur) acc
   end.
 Definition spec_lex (s : list byte) : list tok := lex_go s [] [].
@@ -410,8 +413,8 @@ Definition spec_tokens (ts : list tok) (e : env) : result :=
 Fixpoint touches (s : list byte) : bool :=
   match s with
   | a :: ((b :: _) as tl) =>
-      (negb (is_ws a || is_paren a) && Byte.eqb b x28)
-      || (Byte.eqb a x29 && negb (is_ws b || is_paren b))
+      (negb (is_ws a || is_paren a) && beq b x28)
+      || (beq a x29 && negb (is_ws b || is_paren b))
       || touches tl
   | _ => false
   end.
